@@ -448,7 +448,7 @@ class raw_full_any_count:
 
 _InElemWit = RecordOf(Input, prev_txid=Bytes(32), output_n=Bytes(4), sequence=Int(0, 2 ** 32 - 1), value=Int(0, MAX_MONEY),
                       script_type=Const('sig_pubkey'), witness_type=Const('segwit'), redeemscript=Bytes(max=10000),
-                      locking_script=Bytes(max=10000), witnesses=FixedList(Bytes(max=520, ne=b'\x00'), 2), unlocking_script=Bytes(max=10000, ne=b'\x00'), index_n=Position())
+                      locking_script=Bytes(max=10000), witnesses=FixedList(Bytes(max=252, ne=b'\x00'), 2), unlocking_script=Bytes(max=10000, ne=b'\x00'), index_n=Position())
 _TxAnyCountWit = RecordOf(Transaction, version=Bytes(4), version_int=Int(0, 2 ** 32 - 1), locktime=Int(0, 2 ** 32 - 1), witness_type=Const('segwit'), size=Const(1),
                           inputs=ListOf(_InElemWit), outputs=ListOf(_OutElem))
 
